@@ -261,3 +261,60 @@ func c13PivConcurrent(c *ev.Ctx) {
 		vnet.Unregister(w.addr)
 	}
 }
+
+// c13LengthSweep: raw requests and replies of EVERY length 1..3000 through one client connection (and signatures over data
+// of every length 1280..1420 with an Ed25519 key): the served agent receives the same bytes, the caller the same reply -
+// a framing helper with a size class anywhere on the path shows at its boundary only.
+func c13LengthSweep(c *ev.Ctx) {
+	sig, _ := fix.Signer(fK1).Sign(nil, []byte("data"))
+	st := &stubAgent{Sig: sig}
+	addr := fmt.Sprintf("/verif/yubi-len-%d", worldSeq.Add(1))
+	sp := &servedPeer{}
+	vnet.Register(addr, func() (net.Conn, error) { return servedConn(st, sp)() })
+	defer vnet.Unregister(addr)
+	cl, err := yubiagent.NewClient(addr)
+	if err != nil {
+		c.Violation("C13:harness:newclient", err.Error(), nil)
+		return
+	}
+	defer cl.Close()
+	n := 0
+	for L := 1; L <= 3000; L++ {
+		c.Eval()
+		n++
+		req := append([]byte{0xc9}, bytes.Repeat([]byte{byte(L)}, L-1)...)
+		st.RawResp = append([]byte{0xee}, bytes.Repeat([]byte{byte(L >> 3)}, L-1)...)
+		st.Calls = nil
+		var resp []byte
+		var ferr error
+		k := map[string]any{"length_sweep": "Forward", "length": L}
+		if p := ev.Guard(func() { resp, ferr = cl.Forward(req) }); p != "" {
+			c.Violation("C13:panic:"+ev.PanicSite(p), p, k)
+			return
+		}
+		got, _ := last(st, "Forward")
+		if ferr != nil || !bytes.Equal(resp, st.RawResp) || !bytes.Equal(got.Raw, req) {
+			c.Violation("C13:mismatch:forward:length", fmt.Sprintf("raw request of %d bytes with a reply of %d bytes: the served agent received %d bytes, the caller %d bytes, err=%v", L, len(st.RawResp), len(got.Raw), len(resp), ferr), k)
+			return
+		}
+	}
+	for L := 1280; L <= 1420; L++ {
+		c.Eval()
+		n++
+		data := bytes.Repeat([]byte{7}, L)
+		st.Calls = nil
+		k := map[string]any{"length_sweep": "Sign", "length": L}
+		var s *ssh.Signature
+		var serr error
+		if p := ev.Guard(func() { s, serr = cl.Sign(fix.Pub(fK1), data) }); p != "" {
+			c.Violation("C13:panic:"+ev.PanicSite(p), p, k)
+			return
+		}
+		got, _ := last(st, "Sign")
+		if serr != nil || s == nil || !bytes.Equal(s.Blob, sig.Blob) || !bytes.Equal(got.Data, data) {
+			c.Violation("C13:mismatch:sign:length", fmt.Sprintf("signature over %d bytes of data: err=%v, the served agent received %d bytes", L, serr, len(got.Data)), k)
+			return
+		}
+	}
+	c.Set("length_sweep_round_trips", n)
+}
